@@ -357,7 +357,7 @@ def enumerate_histories(alphabet, max_len, shard=0, nshards=1):
     return rec([], 0)
 
 
-def long_timeline_program(rng, directed, ids=None):
+def long_timeline_program(rng, directed, ids=None, nruns=None):
     """few pairs, one of them with 9-16 separate runs (points and intervals): timelines long enough to reach
     any code path that treats long lists differently (search, caching, blocking)"""
     ids = ids or [0, 1, 2, 3]
@@ -365,8 +365,9 @@ def long_timeline_program(rng, directed, ids=None):
     pairs = [(ids[0], ids[1]), (ids[1], ids[2])] + ([(ids[1], ids[0])] if directed else []) + [(ids[2], ids[3])]
     for pi, (u, v) in enumerate(pairs):
         t = rng.randint(-3, 2)
-        nruns = rng.randint(9, 16) if pi == 0 or rng.random() < 0.3 else rng.randint(1, 4)
-        for _ in range(nruns):
+        lo, hi = nruns or (9, 16)
+        k = rng.randint(lo, hi) if pi == 0 or rng.random() < 0.3 else rng.randint(1, 4)
+        for _ in range(k):
             ln = rng.choice((1, 1, 2, 3, 4))
             a, b = (u, v) if directed or rng.random() < 0.7 else (v, u)
             prog.append(("add", a, b, t, None if ln == 1 and rng.random() < 0.6 else t + ln))
